@@ -157,6 +157,8 @@ type step struct {
 	N     int    `json:"n,omitempty"`     // bulk: number of documents
 	Drop  int    `json:"drop,omitempty"`  // shrink: limit = total size of all but the Drop oldest fractions ...
 	Delta int    `json:"delta,omitempty"` // ... plus Delta bytes
+	Park  string `json:"park,omitempty"`  // sealrace: schedule point of proxyFrac.Seal where the seal waits for the retention pass to start
+	Hold  bool   `json:"hold,omitempty"`  // sealrace: Release is kept back until the retention pass has finished
 }
 
 type callRec struct {
@@ -321,6 +323,12 @@ func (d *driver) runHistory(h *history) error {
 			case "rotate":
 				var after []fracObs
 				if after, e = call(s, storectl.Req{Op: "c15.rotate"}, nil, cur, 0); e == nil {
+					cur = after
+				}
+			case "sealrace":
+				ex, _ := json.Marshal(extraReq{Park: s.Park, Hold: s.Hold})
+				var after []fracObs
+				if after, e = call(s, storectl.Req{Op: "c15.sealrace", Extra: ex}, nil, cur, 0); e == nil {
 					cur = after
 				}
 			case "synccache":
